@@ -40,3 +40,21 @@ PROPS = {
     "C05": wire("C05", ["replies handed to reply_struct are built by Reply::parameters/error (no continues member of their own)"]),
     "C06": wire("C06", ["absence of panics in serde_json/std for arbitrary bytes is observed on the generated inputs, not proved"]),
 }
+
+
+# fragments written by the owners of the other suites: tools/props.d/Cxx.json
+def _load_fragments():
+    import glob
+    import json
+    import os
+    d = os.path.join(os.path.dirname(os.path.abspath(__file__)), "props.d")
+    out = {}
+    for f in sorted(glob.glob(os.path.join(d, "C*.json"))):
+        j = json.load(open(f))
+        out[j["property"]] = j
+    return out
+
+
+FRAGMENTS = _load_fragments()
+for _p, _j in FRAGMENTS.items():
+    PROPS[_p] = _j["spec"]
